@@ -62,6 +62,7 @@ type oracles struct {
 	lastCCID      uint64
 	latest        *memView
 	memByCCID     map[uint64]*memView
+	raftMemSeen   map[string]bool
 	readConf      map[int]map[pb.SystemCtx]map[uint64]bool
 	readWatch     map[int]*readWatch
 	dupReadIndex  int
@@ -85,6 +86,7 @@ func newOracles(s *Sim) *oracles {
 		leaderOfTerm: map[uint64]uint64{}, results: map[*Client]int{}, stateSet: map[uint64]struct{}{}}
 	// the network never duplicates for C01 (its quantifier excludes it)
 	o.memByCCID = map[uint64]*memView{}
+	o.raftMemSeen = map[string]bool{}
 	o.readConf = map[int]map[pb.SystemCtx]map[uint64]bool{}
 	o.readWatch = map[int]*readWatch{}
 	o.roleWatch = map[int]roleRec{}
@@ -356,6 +358,65 @@ func (o *oracles) afterStep() {
 
 // ---------------- C07 / C18 membership ----------------
 
+// checkRaftMembership: the raft core's replication targets by kind (remotes,
+// nonVotings, witnesses - what its quorums are computed from) are updated only
+// from applied membership changes and restored snapshots, so on a replica that
+// is doing nothing (no task of the host is live) and has applied everything it
+// knows to be committed they are exactly the applied membership of its state
+// machine. (The bootstrap members are known to raft before their entries are
+// applied, hence nothing is compared before those are.)
+func (o *oracles) checkRaftMembership(h *Host, st raft.VerifState, m pb.Membership) {
+	s := o.s
+	if st.Applied != st.Committed || st.Committed < uint64(len(s.initialMembers)) || h.removed {
+		return
+	}
+	if _, gone := m.Removed[st.ReplicaID]; gone {
+		return
+	}
+	kinds := map[string]map[uint64]bool{"voter": {}, "nonvoting": {}, "witness": {}}
+	for _, rm := range st.Remotes {
+		kinds[rm.Kind][rm.ReplicaID] = true
+	}
+	sm := map[string]map[uint64]bool{"voter": {}, "nonvoting": {}, "witness": {}}
+	for id := range m.Addresses {
+		sm["voter"][id] = true
+	}
+	for id := range m.NonVotings {
+		sm["nonvoting"][id] = true
+	}
+	for id := range m.Witnesses {
+		sm["witness"][id] = true
+	}
+	s.ctx.Count("probe.raft_membership_compared", 1)
+	for _, k := range []string{"voter", "nonvoting", "witness"} {
+		same := len(kinds[k]) == len(sm[k])
+		for id := range kinds[k] {
+			if !sm[k][id] {
+				same = false
+			}
+		}
+		if same {
+			continue
+		}
+		key := fmt.Sprintf("%d/%d/%s", h.id, m.ConfigChangeId, k)
+		if o.raftMemSeen[key] {
+			continue
+		}
+		o.raftMemSeen[key] = true
+		ids := func(x map[uint64]bool) []uint64 {
+			r := make([]uint64, 0, len(x))
+			for id := range x {
+				r = append(r, id)
+			}
+			sort.Slice(r, func(i, j int) bool { return r[i] < r[j] })
+			return r
+		}
+		for _, pr := range []string{"C07", "C18"} {
+			s.ctx.Violate(pr, "raft-membership-differs", "replica %d (idle, applied %d = committed): its raft core counts %v as %s members, the applied membership (config change %d) has %v", st.ReplicaID, st.Applied, ids(kinds[k]), k, m.ConfigChangeId, ids(sm[k]))
+		}
+	}
+}
+
 func (o *oracles) observeMembership(h *Host, st raft.VerifState) {
 	s := o.s
 	r, ok := h.nh.VerifGetReplica(shardID)
@@ -365,6 +426,9 @@ func (o *oracles) observeMembership(h *Host, st raft.VerifState) {
 	m := r.Membership()
 	if m.ConfigChangeId == 0 && len(m.Addresses) == 0 {
 		return
+	}
+	if !r.Stopped() {
+		o.checkRaftMembership(h, st, m)
 	}
 	prev := o.lastMem[h.id]
 	if prev != nil && prev.ccid == m.ConfigChangeId {
